@@ -121,6 +121,17 @@ Theorem C13_below_limit_unchanged : forall (r : fenv) pol fuel seen k v,
 Proof. exact value_of_below_limit. Qed.
 Print Assumptions C13_below_limit_unchanged.
 
+(* the fuel of the model's expander is not part of its meaning: more fuel never changes a proper answer, and every
+   amount from the model's bound on gives the answer of [expand], which is a value or a typed error *)
+Theorem C13_more_fuel_same_answer : forall (r : fenv) pol f f' seen s, f <= f' ->
+  expand_rec r pol f seen s <> Fuel -> expand_rec r pol f' seen s = expand_rec r pol f seen s.
+Proof. exact expand_rec_mono. Qed.
+Print Assumptions C13_more_fuel_same_answer.
+Theorem C13_fuel_irrelevant : forall (r : fenv) pol s f, S (length r) <= f ->
+  expand_rec r pol f [] s = expand r pol s /\ expand r pol s <> Fuel.
+Proof. exact expand_fuel_irrelevant. Qed.
+Print Assumptions C13_fuel_irrelevant.
+
 (* \${...} is left as the literal ${...}; the load-time pass keeps the escape *)
 Theorem C13_escape : forall (r : fenv) pol (l t : str),
   no_dollar l -> no_dollar t ->
